@@ -131,7 +131,8 @@ Definition u_observe (g : dgraph) : list (list Z) :=
     flat_map (fun e => map (fun l => zout zbool (u_has_edge_l g (fst e) (snd e) l)) lalpha) (pairs n);
     map (fun i => zout zn (u_degree g i true)) vs ++ map (fun i => zout zn (u_degree g i false)) vs ++ zvec zn n (u_degrees g true) ++ zvec zn n (u_degrees g false);
     flat_map (fun tw => match u_adjacency_matrix g tw with Val m => map zn (concat m) | Raise e => repeat (zexn e) (n * n) | Undef _ => repeat zub (n * n) end) [true; false];
-    match u_iterate g with Val es => zn (length es) :: map (fun e => zn (length (filter (edge_eqb e) es))) (pairs n) | Raise e => repeat (zexn e) (S (n * n)) | Undef _ => repeat zub (S (n * n)) end ].
+    match u_iterate g with Val es => zn (length es) :: map (fun e => zn (length (filter (edge_eqb e) es))) (pairs n) | Raise e => repeat (zexn e) (S (n * n)) | Undef _ => repeat zub (S (n * n)) end;
+    iter_segment V g ].
 
 Inductive uop :=
 | UAdd (a b : nat) (l : L) (force : bool) | URemove (a b : nat) | USelfLoops | URemoveVertex (v : nat) | UClear | UResize (n : nat)
